@@ -86,7 +86,9 @@ def composite(ctx, report, rule, facts, config, im, bodies, kind, label, methods
             problems.append("no returning path")
         for p in paths:
             allc = [x for x in _deep_all(p.path.events) if x[0] == "call"]
-            if [x for x in p.path.events if x[0] == "loop"]:
+            ret0 = Q.strip(ev, p.ret) if p.ret is not None else None
+            own = _collected_into(ev, p, ret0) if m in ("reads", "writes") else set()
+            if [x for x in p.path.events if x[0] == "loop" and not (own and x[1].kind == "model:collect" and ret0[0] == "call" and x[1].site == ret0[1])]:
                 problems.append("`%s` loops" % m)
             calls = [x for x in allc if x[2].trait == A.T_SYSDATA and x[2].container == "trait"]
             same = [x for x in calls if x[2].name == m]
@@ -116,6 +118,7 @@ def composite(ctx, report, rule, facts, config, im, bodies, kind, label, methods
                             v = Q.strip(ev, x[3][1], extra=("into_iter",))
                             if isinstance(v, tuple) and v[0] == "call":
                                 appended.add(v[1])
+                appended |= _collected_into(ev, p, ret)
                 for x in same:
                     if x[1] not in appended:
                         problems.append("the %s of member %s are computed but not appended to the returned vector" % (m, nolt(ev.self_arg(x[4]))))
@@ -135,6 +138,60 @@ def composite(ctx, report, rule, facts, config, im, bodies, kind, label, methods
         report.ob(rule, inst, not problems, "; ".join(sorted(set(problems))) if problems else
                   "%d member(s), each delegated to exactly once" % len(members), site=b.loc(), config=config)
     return n
+
+
+def _collected_into(ev, end, ret):
+    """Sites of the calls whose whole result ends up in the collection `ret` because `ret` is collected from them: the
+    leaves of a chain that is collected without filtering, or the elements of a written-out list that is flattened."""
+    from . import semq as Q
+    out = set()
+    if not (isinstance(ret, tuple) and ret and ret[0] == "call"):
+        return out
+    loops = [L for L in Q.all_loops([end]) if L.kind == "model:collect" and L.site == ret[1]]
+    tops = [L for L in loops if not (isinstance(L.source, tuple) and L.source[:1] == ("elem",))]
+    if len(tops) != 1:
+        return out
+    L = tops[0]
+    if L.stages or not Q.is_full(L):
+        return out
+
+    def plain_yield(M, it):
+        ys = [x for x in it.path.events if x[0] == "yield" and x[1] == ret[1]]
+        others = [x for x in it.path.events if x[0] in ("call", "loop", "store")]
+        return len(ys) == 1 and not others and ys[0][2] == M.elem
+
+    conts = [it for it in L.iters if it.end == "continue"]
+    if conts and all(plain_yield(L, it) for it in conts):
+        # every element of every leaf is taken
+        for lf in Q.leaves(ev, L.source):
+            lf = Q.strip(ev, lf, extra=("into_iter",))
+            if isinstance(lf, tuple) and lf and lf[0] == "call":
+                out.add(lf[1])
+        return out
+    # flatten: every element of every element
+    ok = bool(conts)
+    for it in conts:
+        inner = [x for x in it.path.events if x[0] == "loop"]
+        others = [x for x in it.path.events if x[0] in ("call", "store", "yield")]
+        if len(inner) != 1 or others:
+            ok = False
+            break
+        M = inner[0][1]
+        if Q.strip(ev, M.source, extra=("into_iter",)) != L.elem or M.stages or not Q.is_full(M):
+            ok = False
+            break
+        mc = [j for j in M.iters if j.end == "continue"]
+        if not mc or not all(plain_yield(M, j) for j in mc):
+            ok = False
+            break
+    if ok:
+        src = Q.strip(ev, L.source, extra=("into_iter",))
+        if isinstance(src, tuple) and src and src[0] == "agg" and src[1] in ("veclit", "array") and src not in ev.tainted_literals:
+            for el in src[3]:
+                el = Q.strip(ev, el, extra=("into_iter",))
+                if isinstance(el, tuple) and el and el[0] == "call":
+                    out.add(el[1])
+    return out
 
 
 def leaf(ctx, report, rule, facts, config, im, bodies, label):
